@@ -35,9 +35,29 @@ def read(source, format=None):
     if format:
         return ProvDocument.deserialize(source=source, format=format.lower())
 
+    if hasattr(source, "read"):
+        # a stream can only be read once: keep its content and give every
+        # attempt a fresh stream (otherwise the first failed attempt consumes
+        # it and a later one "succeeds" on the empty remainder)
+        import io
+
+        content = source.read()
+
+        def get_source():
+            return (
+                io.StringIO(content)
+                if isinstance(content, str)
+                else io.BytesIO(content)
+            )
+
+    else:
+
+        def get_source():
+            return source
+
     for format in serializers:
         try:
-            return ProvDocument.deserialize(source=source, format=format)
+            return ProvDocument.deserialize(source=get_source(), format=format)
         except:
             pass
     else:
